@@ -163,7 +163,7 @@ func init() {
 		mutant{"k-limit-dropped", "internal/server/http_handlers.go", "\tif req.K > maxK {\n\t\ts.writeHTTPError(w, http.StatusBadRequest, fmt.Errorf(\"k must be between 1 and %d\", maxK))\n\t\treturn\n\t}\n\n\t// Auto-embed: if QueryVector empty but QueryText provided (mirrors /search).", "\t// Auto-embed: if QueryVector empty but QueryText provided (mirrors /search).", "WEB-6", "Engine.VSearchWithScores"},
 		mutant{"batch-item-dimension-unchecked", "internal/server/http_handlers.go", "\tfor i := range req.Vectors {\n\t\tif len(req.Vectors[i].Vector) > maxVectorDim {\n\t\t\ts.writeHTTPError(w, http.StatusBadRequest, fmt.Errorf(\"vector dimension must be <= %d, got %d (item %d)\", maxVectorDim, len(req.Vectors[i].Vector), i))\n\t\t\treturn\n\t\t}\n\t}\n\n\terr := s.Engine.VAddBatch(", "\n\terr := s.Engine.VAddBatch(", "WEB-6", "handleVectorAddBatch:Engine.VAddBatch#1:vector-dimension-of-batch-items"},
 		mutant{"body-limit-inside-auth", "internal/server/server.go", "\t// 1. Auth (Inner)\n\thandler = s.authMiddleware(handler)\n\n\t// 2. Body Size Limit - prevents oversized payloads (DoS protection)\n\thandler = s.bodySizeLimitMiddleware(handler)\n", "\thandler = s.bodySizeLimitMiddleware(handler)\n\thandler = s.authMiddleware(handler)\n", "WEB-6", "chain:body-limit-outside-auth"},
-		mutant{"index-name-unvalidated-on-create", "pkg/engine/ops.go", "\tif err := validateIndexName(name); err != nil {\n\t\treturn err\n\t}\n\n\t// 1. Prepare AOF Command Arguments", "\t// 1. Prepare AOF Command Arguments", "WEB-8", "Engine.VCreate:arena-path"},
+		mutant{"index-name-unvalidated-on-create", "pkg/engine/ops.go", "\tif err := validateIndexName(name); err != nil {\n\t\treturn err\n\t}\n\t// \"::\" separates the index name from the node id in graph ids", "\t// \"::\" separates the index name from the node id in graph ids", "WEB-8", "Engine.VCreate:arena-path"},
 		mutant{"vdrop-replay-unvalidated", "pkg/engine/recovery.go", "\t\t\t\tif validateIndexName(idxName) != nil {\n\t\t\t\t\tslog.Warn(\"skipping VDROP with an invalid index name\", \"index\", idxName)\n\t\t\t\t\tbreak\n\t\t\t\t}\n", "", "WEB-8", "Engine.replayAOF:arena-path"},
 		mutant{"validator-allows-backslash", "pkg/engine/ops.go", "strings.ContainsAny(name, \"/\\\\\\x00\")", "strings.ContainsAny(name, \"/\\x00\")", "WEB-8", "validator:rejects:backslash"},
 		mutant{"bad-request-after-delete", "internal/server/http_handlers.go", "\tif err := s.Engine.VDelete(req.IndexName, req.Id); err != nil {\n\t\ts.writeHTTPError(w, http.StatusInternalServerError, err)\n\t\treturn\n\t}\n\ts.writeHTTPResponse(w, http.StatusOK, map[string]string{\"status\": \"OK\"})", "\tif err := s.Engine.VDelete(req.IndexName, req.Id); err != nil {\n\t\ts.writeHTTPError(w, http.StatusInternalServerError, err)\n\t\treturn\n\t}\n\tif len(req.Id) > 512 {\n\t\ts.writeHTTPError(w, http.StatusBadRequest, fmt.Errorf(\"id too long\"))\n\t\treturn\n\t}\n\ts.writeHTTPResponse(w, http.StatusOK, map[string]string{\"status\": \"OK\"})", "WEB-7", "handleVectorDelete:VDelete"},
@@ -504,7 +504,7 @@ func init() {
 }
 
 func init() {
-	newRoute := mutant{"benign:new-read-route-and-new-write-route", "internal/server/http_handlers.go", "\tmux.HandleFunc(\"DELETE /kv/{key}\", s.handleKVDelete)\n", "\tmux.HandleFunc(\"DELETE /kv/{key}\", s.handleKVDelete)\n\tmux.HandleFunc(\"GET /kv-exists/{key}\", func(w http.ResponseWriter, r *http.Request) {\n\t\t_, found := s.Engine.KVGet(r.PathValue(\"key\"))\n\t\ts.writeHTTPResponse(w, http.StatusOK, map[string]bool{\"exists\": found})\n\t})\n\tmux.HandleFunc(\"POST /kv-touch/{key}\", func(w http.ResponseWriter, r *http.Request) {\n\t\tif err := s.Engine.KVSet(r.PathValue(\"key\"), []byte(\"1\")); err != nil {\n\t\t\ts.writeHTTPError(w, http.StatusInternalServerError, err)\n\t\t\treturn\n\t\t}\n\t\ts.writeHTTPResponse(w, http.StatusOK, map[string]string{\"status\": \"OK\"})\n\t})\n", "silent", ""}
+	newRoute := mutant{"benign:new-read-route-and-new-write-route", "internal/server/http_handlers.go", "\tmux.HandleFunc(\"DELETE /kv/{key}\", s.handleKVDelete)\n", "\tmux.HandleFunc(\"DELETE /kv/{key}\", s.handleKVDelete)\n\tmux.HandleFunc(\"GET /kv-exists/{key}\", func(w http.ResponseWriter, r *http.Request) {\n\t\tif auth.IsReservedKey(r.PathValue(\"key\")) {\n\t\t\ts.writeHTTPError(w, http.StatusForbidden, fmt.Errorf(\"key is reserved\"))\n\t\t\treturn\n\t\t}\n\t\t_, found := s.Engine.KVGet(r.PathValue(\"key\"))\n\t\ts.writeHTTPResponse(w, http.StatusOK, map[string]bool{\"exists\": found})\n\t})\n\tmux.HandleFunc(\"POST /kv-touch/{key}\", func(w http.ResponseWriter, r *http.Request) {\n\t\tif auth.IsReservedKey(r.PathValue(\"key\")) {\n\t\t\ts.writeHTTPError(w, http.StatusForbidden, fmt.Errorf(\"key is reserved\"))\n\t\t\treturn\n\t\t}\n\t\tif err := s.Engine.KVSet(r.PathValue(\"key\"), []byte(\"1\")); err != nil {\n\t\t\ts.writeHTTPError(w, http.StatusInternalServerError, err)\n\t\t\treturn\n\t\t}\n\t\ts.writeHTTPResponse(w, http.StatusOK, map[string]string{\"status\": \"OK\"})\n\t})\n", "silent", ""}
 	addMutants("C16", newRoute)
 	addMutants("C19", newRoute)
 }
@@ -646,5 +646,11 @@ func init() {
 func init() {
 	addMutants("C01",
 		mutant{"cleared-auto-links-not-applied-to-restored-index", "pkg/engine/recovery.go", "\t\tif state.autoLinksSet && isHnsw {\n", "\t\tif len(state.autoLinks) > 0 && isHnsw {\n", "CDC-8", "apply:SetAutoLinks#1:also-for-the-empty-value"},
+	)
+}
+
+func init() {
+	addMutants("C16",
+		mutant{"new-kv-route-without-the-reserved-key-test", "internal/server/http_handlers.go", "\tmux.HandleFunc(\"DELETE /kv/{key}\", s.handleKVDelete)\n", "\tmux.HandleFunc(\"DELETE /kv/{key}\", s.handleKVDelete)\n\tmux.HandleFunc(\"GET /kv-exists/{key}\", func(w http.ResponseWriter, r *http.Request) {\n\t\t_, found := s.Engine.KVGet(r.PathValue(\"key\"))\n\t\ts.writeHTTPResponse(w, http.StatusOK, map[string]bool{\"exists\": found})\n\t})\n", "WEB-9", "KVGet#1:behind-reserved-key-test"},
 	)
 }
